@@ -271,7 +271,9 @@ let cmd_tree () =
           | TScanned (dirs, log, p2) ->
             let p2s = match p2 with
               | T2Ok (roots, ms, ex, enums, cat) ->
-                Printf.sprintf "\"p2\":\"ok\",%s,\"roots\":%s,\"macros\":%s,\"expanded\":%s,\"enums\":%s" (cat_json cat)
+                let pl = match placed_case (List.rev !fs) !root (List.rev !ot) (List.rev !et) (nat_of_int !fuel) with
+                  | Some true -> "true" | Some false -> "false" | None -> "null" in
+                Printf.sprintf "\"p2\":\"ok\",\"placed\":%s,%s,\"roots\":%s,\"macros\":%s,\"expanded\":%s,\"enums\":%s" pl (cat_json cat)
                   (jlist (List.map (fun d -> jstr (rdir_str d)) roots))
                   (jlist (List.map (fun m -> jstr (hex_of_bytes m)) ms))
                   (jlist (List.map (fun d -> jstr (rdir_str d)) ex))
